@@ -10,6 +10,7 @@ import (
 	"github.com/pokt-network/pocket-core/store/types"
 	dbm "github.com/tendermint/tm-db"
 
+	"verif/internal/ev"
 	"verif/internal/kvmodel"
 )
 
@@ -223,6 +224,15 @@ func readAll(st types.KVStore) ([]kvmodel.KV, error) {
 func compareMS(n *msNode, view types.MultiStore, want []kvmodel.Map, probes [][]byte, tag string) (string, string) {
 	for s := 0; s < len(want); s++ {
 		st := n.store(view, s)
+		// point reads of every expected key first: a node missing from the database panics in the calling goroutine here,
+		// where it can be reported; the same defect met by the store's iterator goroutine would end the process
+		if p, stk := ev.Try(func() {
+			for k := range want[s] {
+				_, _ = st.Get([]byte(k))
+			}
+		}); p != nil {
+			return "content-get-panic", fmt.Sprintf("%s store s%d: Get of an expected key panicked: %v\n%s", tag, s, p, stk)
+		}
 		got, err := readAll(st)
 		if err != nil {
 			return "content-iter-panic", fmt.Sprintf("%s store s%d: %v", tag, s, err)
